@@ -1,5 +1,6 @@
 """Oracles that need more than the K1 step vocabulary:
    C16 (aliasing: values are copied in and out) and C18 (family closure; attribute access = item access)."""
+import contextlib
 import copy
 import os
 import shutil
@@ -49,185 +50,217 @@ def run_c16(prop, tier, seed):
     ev = 0
     try:
         for i in range(n):
-            cls = ns.all_classes[(seed + i) % len(ns.all_classes)]
-            st = Store(ns, cls, tmp, f"c16_{i}")
-            x = st.make()
-            is_list = isinstance(raw_data(x), list)
-            # seed some content
-            base = g.container("list" if is_list else "dict", 3)
-            if is_list:
-                base = [1] + base + [{"m": [2, {"n": 3}]}, [4]]
-            else:
-                base["mixed"] = [1, {"m": [2]}, [3]]
-            x.reset(copy.deepcopy(base))
+            with contextlib.ExitStack() as stack:
+              cls = ns.all_classes[(seed + i) % len(ns.all_classes)]
+              st = Store(ns, cls, tmp, f"c16_{i}")
+              x = st.make()
+              is_list = isinstance(raw_data(x), list)
+              # seed some content
+              base = g.container("list" if is_list else "dict", 3)
+              if is_list:
+                  base = [1] + base + [{"m": [2, {"n": 3}]}, [4]]
+              else:
+                  base["mixed"] = [1, {"m": [2]}, [3]]
+              x.reset(copy.deepcopy(base))
+              mode = "unbuffered"
+              if hasattr(cls, "buffer_backend") and g.r.random() < 0.6:
+                  mode = g.r.choice(["obj", "cls", "cls>obj"])
+                  if mode in ("cls", "cls>obj"):
+                      stack.enter_context(cls.buffer_backend())
+                  if mode in ("obj", "cls>obj"):
+                      stack.enter_context(x.buffered)
 
-            def snapshot():
-                return copy.deepcopy(x._to_base()), copy.deepcopy(st.read())
+              def snapshot():
+                  return copy.deepcopy(x._to_base()), copy.deepcopy(st.read()), copy.deepcopy(x())
 
-            def check(tag, before, detail):
-                after = snapshot()
-                if not strict_eq(before[0], after[0]) or not strict_eq_m(before[1], after[1]):
-                    res["oracle_failures"].append({"oracle": "C16-" + tag, "cls": cls.__name__, "seed": seed, "case": i, "detail": detail,
-                                                   "before": jsonable(before[0]), "after": jsonable(after[0])})
-            # 1. copy-in: every entry point that takes a container
-            arg = g.value(3)
-            while not containers_in(arg):
-                arg = g.container(g.r.choice(["list", "dict"]), 3)
-            entry = g.r.choice(["set", "append", "extend", "insert", "iadd", "slice", "reset", "ctor"] if is_list
-                               else ["set", "update", "update_kw", "setdefault", "reset", "ctor"])
-            orig = copy.deepcopy(arg)
-            target = x
-            try:
-                if entry == "ctor":
-                    data = [arg] if is_list else {"k": arg}
-                    st2 = Store(ns, cls, tmp, f"c16_{i}_b")
-                    target = st2.make(data=data)
-                    x, st = target, st2
-                    arg_root = data
-                elif entry == "set":
-                    if is_list:
-                        x.append(0)
-                        x[0] = arg
-                    else:
-                        x["k"] = arg
-                    arg_root = arg
-                elif entry == "append":
-                    x.append(arg); arg_root = arg
-                elif entry == "extend":
-                    arg_root = [arg, copy.deepcopy(arg)]; x.extend(arg_root)
-                elif entry == "iadd":
-                    arg_root = [arg]; x += arg_root
-                elif entry == "insert":
-                    x.insert(0, arg); arg_root = arg
-                elif entry == "slice":
-                    arg_root = [arg]; x[0:0] = arg_root
-                elif entry == "reset":
-                    arg_root = [arg, 1] if is_list else {"k": arg, "j": 1}; x.reset(arg_root)
-                elif entry == "update":
-                    arg_root = {"k": arg}; x.update(arg_root)
-                elif entry == "update_kw":
-                    arg_root = arg; x.update(kk=arg)
-                elif entry == "setdefault":
-                    arg_root = arg; x.setdefault("fresh_key", arg)
-            except Exception as e:  # noqa
-                res["oracle_failures"].append({"oracle": "C16-accept", "cls": cls.__name__, "detail": f"{entry} raised {type(e).__name__}: {e}", "case": i})
-                continue
-            before = snapshot()
-            scribble(arg_root, g)
-            check("copy-in", before, f"mutating the argument of {entry} afterwards changed the collection")
-            ev += 1
-            # 2. copy-out: (), values(), items(), slices, iteration results are plain and detached
-            before = snapshot()
-            outs = [x()]
-            if is_list:
-                outs += [x[:], list(reversed(x))]
-            else:
-                outs += [list(x.values()), [list(p) for p in x.items()]]
-            for o in outs:
-                for c in containers_in(o):
-                    if type(c) not in (dict, list):
-                        res["oracle_failures"].append({"oracle": "C16-plain", "cls": cls.__name__, "detail": f"result contains {type(c).__name__}", "case": i})
-                if not any(is_synced(e) for e in (o if isinstance(o, list) else o.values())):
-                    scribble(o, g)
-            deep = x()
+              def check(tag, before, detail):
+                  after = snapshot()
+                  if not strict_eq(before[0], after[0]) or not strict_eq_m(before[1], after[1]) or not strict_eq(before[2], after[2]):
+                      res["oracle_failures"].append({"oracle": "C16-" + tag, "cls": cls.__name__, "seed": seed, "case": i, "detail": detail,
+                                                     "before": jsonable(before[0]), "after": jsonable(after[0])})
+              # 1. copy-in: every entry point that takes a container
+              arg = g.value(3)
+              while not containers_in(arg):
+                  arg = g.container(g.r.choice(["list", "dict"]), 3)
+              entry = g.r.choice(["set", "append", "extend", "insert", "iadd", "slice", "reset", "ctor"] if is_list
+                                 else ["set", "update", "update_kw", "setdefault", "reset", "ctor"])
+              shared = None
+              if g.r.random() < 0.45:
+                  # one container object referenced from several positions of the argument (a DAG, not a tree)
+                  shared = g.container(g.r.choice(["list", "dict"]), 1)
+                  arg = {"p": shared, "p2": shared, "q": {"r": shared}, "s": [shared, shared]} if g.r.random() < 0.6 else [shared, {"r": shared, "r2": shared}, shared]
+              orig = copy.deepcopy(arg)
+              target = x
+              try:
+                  if entry == "ctor":
+                      data = [arg] if is_list else {"k": arg}
+                      st2 = Store(ns, cls, tmp, f"c16_{i}_b")
+                      target = st2.make(data=data)
+                      x, st = target, st2
+                      arg_root = data
+                  elif entry == "set":
+                      if is_list:
+                          x.append(0)
+                          x[0] = arg
+                      else:
+                          x["k"] = arg
+                      arg_root = arg
+                  elif entry == "append":
+                      x.append(arg); arg_root = arg
+                  elif entry == "extend":
+                      arg_root = [arg, copy.deepcopy(arg)]; x.extend(arg_root)
+                  elif entry == "iadd":
+                      arg_root = [arg]; x += arg_root
+                  elif entry == "insert":
+                      x.insert(0, arg); arg_root = arg
+                  elif entry == "slice":
+                      arg_root = [arg]; x[0:0] = arg_root
+                  elif entry == "reset":
+                      arg_root = [arg, 1] if is_list else {"k": arg, "j": 1}; x.reset(arg_root)
+                  elif entry == "update":
+                      arg_root = {"k": arg}; x.update(arg_root)
+                  elif entry == "update_kw":
+                      arg_root = arg; x.update(kk=arg)
+                  elif entry == "setdefault":
+                      arg_root = arg; x.setdefault("fresh_key", arg)
+              except Exception as e:  # noqa
+                  res["oracle_failures"].append({"oracle": "C16-accept", "cls": cls.__name__, "detail": f"{entry} raised {type(e).__name__}: {e}", "case": i})
+                  continue
+              before = snapshot()
+              scribble(arg_root, g)
+              check("copy-in", before, f"mutating the argument of {entry} afterwards changed the collection")
+              ev += 1
+              if shared is not None:
+                  # every position that referred to the shared object holds its own copy
+                  twins = [n_ for n_, p_ in walk(x) if p_ and strict_eq(n_._to_base(), orig["p"] if isinstance(orig, dict) else orig[0])
+                           and isinstance(raw_data(n_), type(shared))]
+                  if len(twins) >= 2:
+                      a_, rest_ = twins[0], twins[1:]
+                      rest_before = [copy.deepcopy(t_._to_base()) for t_ in rest_]
+                      if isinstance(raw_data(a_), list):
+                          a_.append("only-here")
+                      else:
+                          a_["only_here"] = 1
+                      for t_, b_ in zip(rest_, rest_before):
+                          if t_ is a_ or not strict_eq(t_._to_base(), b_):
+                              res["oracle_failures"].append({"oracle": "C16-shared", "cls": cls.__name__, "case": i, "seed": seed,
+                                                             "detail": f"{entry}: the argument referred to one container from several positions; after storing it, "
+                                                                       "mutating one stored position changed another (they are the same object)",
+                                                             "argument": jsonable(orig)})
+                              break
+                      ev += 1
+              # 2. copy-out: (), values(), items(), slices, iteration results are plain and detached
+              before = snapshot()
+              outs = [x()]
+              if is_list:
+                  outs += [x[:], list(reversed(x))]
+              else:
+                  outs += [list(x.values()), [list(p) for p in x.items()]]
+              for o in outs:
+                  for c in containers_in(o):
+                      if type(c) not in (dict, list):
+                          res["oracle_failures"].append({"oracle": "C16-plain", "cls": cls.__name__, "detail": f"result contains {type(c).__name__}", "case": i})
+                  if not any(is_synced(e) for e in (o if isinstance(o, list) else o.values())):
+                      scribble(o, g)
+              deep = x()
 
-            def find_synced(v, path=()):
-                if is_synced(v):
-                    return path
-                if isinstance(v, dict):
-                    for k_, x_ in v.items():
-                        r_ = find_synced(x_, path + (k_,))
-                        if r_ is not None:
-                            return r_
-                elif isinstance(v, (list, tuple)):
-                    for i_, x_ in enumerate(v):
-                        r_ = find_synced(x_, path + (i_,))
-                        if r_ is not None:
-                            return r_
-                return None
-            for what_, val_ in [("()", deep)] + ([("values()", list(x.values())), ("items()", [list(p_) for p_ in x.items()])] if not is_list else [("[:]", x()[:])]):
-                sp = find_synced(val_)
-                if sp is not None:
-                    res["oracle_failures"].append({"oracle": "C16-plain", "cls": cls.__name__, "case": i,
-                                                   "detail": f"the result of {what_} contains a live synced collection at {sp}: mutating it writes through"})
-            for c in containers_in(deep):
-                if type(c) not in (dict, list):
-                    res["oracle_failures"].append({"oracle": "C16-plain", "cls": cls.__name__, "detail": f"() contains {type(c).__name__} below the top level", "case": i})
-            scribble(deep, g)
-            check("copy-out", before, "mutating the result of () / values() / items() changed the collection")
-            ev += 1
-            # 3. removed values: pop / popitem / del
-            live = [(n_, p) for n_, p in walk(x) if p]
-            if live:
-                node, path = g.r.choice(live)
-                parent = x
-                for k in path[:-1]:
-                    parent = raw_data(parent)[k]
-                k = path[-1]
-                how = g.r.choice(["pop", "del", "popitem"] if not isinstance(raw_data(parent), list) else ["pop", "del"])
-                try:
-                    if how == "pop":
-                        removed = parent.pop(k)
-                    elif how == "del":
-                        removed = node
-                        del parent[k]
-                    else:
-                        removed = parent.popitem()[1]
-                    before = snapshot()
-                    if is_synced(removed):
-                        if isinstance(raw_data(removed), list):
-                            removed.append("after-removal")
-                        else:
-                            removed["after_removal"] = 1
-                    else:
-                        scribble(removed, g)
-                    check("removed", before, f"mutating a value removed by {how} changed the collection")
-                    ev += 1
-                except (KeyError, IndexError):
-                    pass
-            # 4. assigning a synced child elsewhere stores an independent copy
-            live = [(n_, p) for n_, p in walk(x) if p]
-            if live:
-                node, path = g.r.choice(live)
-                try:
-                    if is_list:
-                        x.append(node)
-                        copy_pos = len(raw_data(x)) - 1
-                    else:
-                        x["copy_of_child"] = node
-                        copy_pos = "copy_of_child"
-                    st3 = Store(ns, cls, tmp, f"c16_{i}_c")
-                    other = st3.make()
-                    if is_list:
-                        other.append(node)
-                    else:
-                        other["c"] = node
-                    other_before = copy.deepcopy(other._to_base())
-                    before = snapshot()
-                    # mutate the copy inside x: the original position must not change, and vice versa
-                    cp = raw_data(x)[copy_pos]
-                    orig_before = copy.deepcopy(node._to_base())
-                    if isinstance(raw_data(cp), list):
-                        cp.append("in-copy")
-                    else:
-                        cp["in_copy"] = 1
-                    if not strict_eq(node._to_base(), orig_before):
-                        res["oracle_failures"].append({"oracle": "C16-assign", "cls": cls.__name__, "case": i,
-                                                       "detail": "mutating the assigned copy changed the original child"})
-                    if isinstance(raw_data(node), list):
-                        node.append("in-original")
-                    else:
-                        node["in_original"] = 1
-                    if not strict_eq(other._to_base(), other_before) or not strict_eq(other(), other_before):
-                        res["oracle_failures"].append({"oracle": "C16-assign", "cls": cls.__name__, "case": i,
-                                                       "detail": "mutating the original child changed the copy stored in another collection"})
-                    ev += 1
-                except Exception as e:  # noqa
-                    res["oracle_failures"].append({"oracle": "C16-assign", "cls": cls.__name__, "case": i, "detail": f"assigning a synced child raised {type(e).__name__}: {e}"})
-            key = f"{cls.__name__}:{entry}"
-            res["stats"][key] = res["stats"].get(key, 0) + 1
-            if len(res["samples"]) < 2:
-                res["samples"].append({"class": cls.__name__, "entry_point": entry, "argument": jsonable(orig)})
+              def find_synced(v, path=()):
+                  if is_synced(v):
+                      return path
+                  if isinstance(v, dict):
+                      for k_, x_ in v.items():
+                          r_ = find_synced(x_, path + (k_,))
+                          if r_ is not None:
+                              return r_
+                  elif isinstance(v, (list, tuple)):
+                      for i_, x_ in enumerate(v):
+                          r_ = find_synced(x_, path + (i_,))
+                          if r_ is not None:
+                              return r_
+                  return None
+              for what_, val_ in [("()", deep)] + ([("values()", list(x.values())), ("items()", [list(p_) for p_ in x.items()])] if not is_list else [("[:]", x()[:])]):
+                  sp = find_synced(val_)
+                  if sp is not None:
+                      res["oracle_failures"].append({"oracle": "C16-plain", "cls": cls.__name__, "case": i,
+                                                     "detail": f"the result of {what_} contains a live synced collection at {sp}: mutating it writes through"})
+              for c in containers_in(deep):
+                  if type(c) not in (dict, list):
+                      res["oracle_failures"].append({"oracle": "C16-plain", "cls": cls.__name__, "detail": f"() contains {type(c).__name__} below the top level", "case": i})
+              scribble(deep, g)
+              check("copy-out", before, "mutating the result of () / values() / items() changed the collection")
+              ev += 1
+              # 3. removed values: pop / popitem / del
+              live = [(n_, p) for n_, p in walk(x) if p]
+              if live:
+                  node, path = g.r.choice(live)
+                  parent = x
+                  for k in path[:-1]:
+                      parent = raw_data(parent)[k]
+                  k = path[-1]
+                  how = g.r.choice(["pop", "del", "popitem"] if not isinstance(raw_data(parent), list) else ["pop", "del"])
+                  try:
+                      if how == "pop":
+                          removed = parent.pop(k)
+                      elif how == "del":
+                          removed = node
+                          del parent[k]
+                      else:
+                          removed = parent.popitem()[1]
+                      before = snapshot()
+                      if is_synced(removed):
+                          if isinstance(raw_data(removed), list):
+                              removed.append("after-removal")
+                          else:
+                              removed["after_removal"] = 1
+                      else:
+                          scribble(removed, g)
+                      check("removed", before, f"mutating a value removed by {how} changed the collection")
+                      ev += 1
+                  except (KeyError, IndexError):
+                      pass
+              # 4. assigning a synced child elsewhere stores an independent copy
+              live = [(n_, p) for n_, p in walk(x) if p]
+              if live:
+                  node, path = g.r.choice(live)
+                  try:
+                      if is_list:
+                          x.append(node)
+                          copy_pos = len(raw_data(x)) - 1
+                      else:
+                          x["copy_of_child"] = node
+                          copy_pos = "copy_of_child"
+                      st3 = Store(ns, cls, tmp, f"c16_{i}_c")
+                      other = st3.make()
+                      if is_list:
+                          other.append(node)
+                      else:
+                          other["c"] = node
+                      other_before = copy.deepcopy(other._to_base())
+                      before = snapshot()
+                      # mutate the copy inside x: the original position must not change, and vice versa
+                      cp = raw_data(x)[copy_pos]
+                      orig_before = copy.deepcopy(node._to_base())
+                      if isinstance(raw_data(cp), list):
+                          cp.append("in-copy")
+                      else:
+                          cp["in_copy"] = 1
+                      if not strict_eq(node._to_base(), orig_before):
+                          res["oracle_failures"].append({"oracle": "C16-assign", "cls": cls.__name__, "case": i,
+                                                         "detail": "mutating the assigned copy changed the original child"})
+                      if isinstance(raw_data(node), list):
+                          node.append("in-original")
+                      else:
+                          node["in_original"] = 1
+                      if not strict_eq(other._to_base(), other_before) or not strict_eq(other(), other_before):
+                          res["oracle_failures"].append({"oracle": "C16-assign", "cls": cls.__name__, "case": i,
+                                                         "detail": "mutating the original child changed the copy stored in another collection"})
+                      ev += 1
+                  except Exception as e:  # noqa
+                      res["oracle_failures"].append({"oracle": "C16-assign", "cls": cls.__name__, "case": i, "detail": f"assigning a synced child raised {type(e).__name__}: {e}"})
+              key = f"{cls.__name__}:{entry}"
+              res["stats"][key] = res["stats"].get(key, 0) + 1
+              if len(res["samples"]) < 2:
+                  res["samples"].append({"class": cls.__name__, "entry_point": entry, "argument": jsonable(orig)})
     finally:
         shutil.rmtree(tmp, ignore_errors=True)
     res.update(evaluations=ev, distinct_nontrivial=len(res["stats"]), traces=0,
@@ -243,7 +276,7 @@ def strict_eq_m(a, b):
 
 
 # ------------------------------------------------------------------------------------------ C18
-KEY_POOL = ["a", "b", "zz", "x1", "data", "name", "keys", "update", "pop", "get", "clear", "reset", "filename", "buffered",
+KEY_POOL = ["a", "b", "zz", "x1", "_x1", "_private", "_", "data", "name", "keys", "update", "pop", "get", "clear", "reset", "filename", "buffered",
             "_data", "_root", "_filename", "_load", "_save", "_validate", "_update", "_suspend_sync", "_load_and_save",
             "_lock_and_save", "_name", "registry", "__class__", "__dict__", "__x", "__len__", "not an identifier", "", "1a", "é"]
 
@@ -366,6 +399,59 @@ def run_c18(prop, tier, seed):
                         res["oracle_failures"].append({"oracle": "C18-persist", "cls": cls.__name__, "detail": f"mutation at {path} did not reach the backend"})
                 except Exception as e:  # noqa
                     res["oracle_failures"].append({"oracle": "C18-persist", "cls": cls.__name__, "detail": f"mutation at {path} raised {type(e).__name__}: {e}"})
+        # 1b. objects of two families (plain / attribute access) of one buffering strategy bound to the SAME file, used in
+        #     overlapping buffered contexts: each keeps its own family at every depth and its children belong to it
+        cj = ns.cj
+        pairs = [(cj.BufferedJSONDict, cj.BufferedJSONAttrDict), (cj.MemoryBufferedJSONDict, cj.MemoryBufferedJSONAttrDict),
+                 (cj.BufferedJSONList, cj.BufferedJSONAttrList), (cj.MemoryBufferedJSONList, cj.MemoryBufferedJSONAttrList),
+                 (cj.JSONDict, cj.MemoryBufferedJSONAttrDict), (cj.BufferedJSONDict, cj.MemoryBufferedJSONAttrDict)]
+        for pi, (ca, cb) in enumerate(pairs):
+            for first in ("plain-first", "attr-first"):
+                for ctxkind in ("class", "object"):
+                    fn_ = os.path.join(tmp, f"two_{pi}_{first}_{ctxkind}.json")
+                    is_list = ca.__name__.endswith("List")
+                    init = [{"a": {"b": 1}, "l": [1, {"c": 2}]}] if is_list else {"a": {"b": 1}, "l": [1, {"c": 2}]}
+                    with open(fn_, "w") as fh:
+                        json.dump(init, fh)
+                    pa, pb = ca(fn_), cb(fn_)
+                    ev += 1
+                    try:
+                        with contextlib.ExitStack() as stack:
+                            for o in (pa, pb):
+                                if hasattr(type(o), "buffer_backend"):
+                                    stack.enter_context(type(o).buffer_backend() if ctxkind == "class" else o.buffered)
+                            for o in ((pa, pb) if first == "plain-first" else (pb, pa)):
+                                o()
+                            for o in (pa, pb):
+                                fam = type(o)._backend
+                                want_attr = isinstance(o, AttrDict) or type(o).__name__.endswith("AttrList")
+                                for node, path in walk(o):
+                                    if type(node)._backend != fam or (isinstance(raw_data(node), dict) and want_attr != isinstance(node, AttrDict)):
+                                        res["oracle_failures"].append({"oracle": "C18-family", "cls": type(o).__name__, "detail":
+                                                                       f"two families on one file ({ca.__name__} + {cb.__name__}, {first}, {ctxkind} contexts): "
+                                                                       f"node at {path} of the {type(o).__name__} object is a {type(node).__name__}"})
+                                    root_ = getattr(node, "_root", None)
+                                    if path and root_ is not o:
+                                        res["oracle_failures"].append({"oracle": "C18-family", "cls": type(o).__name__, "detail":
+                                                                       f"two families on one file ({ca.__name__} + {cb.__name__}, {first}, {ctxkind} contexts): "
+                                                                       f"node at {path} of the {type(o).__name__} object has another object as its root"})
+                            top = pb[0] if is_list else pb
+                            if top.a.b != 1:
+                                res["oracle_failures"].append({"oracle": "C18-attr", "cls": cb.__name__, "detail": "attribute read through the attribute-access object failed"})
+                            top.a.c = 5
+                        with open(fn_) as fh:
+                            disk = json.load(fh)
+                        dtop = disk[0] if is_list else disk
+                        if dtop["a"].get("c") != 5:
+                            res["oracle_failures"].append({"oracle": "C18-persist", "cls": cb.__name__, "detail":
+                                                           f"two families on one file ({ca.__name__} + {cb.__name__}, {first}, {ctxkind} contexts): obj.a.c = 5 did not reach the file: {disk}"})
+                    except Exception as e:  # noqa
+                        res["oracle_failures"].append({"oracle": "C18-family", "cls": cb.__name__, "detail":
+                                                       f"two families on one file ({ca.__name__} + {cb.__name__}, {first}, {ctxkind} contexts): {type(e).__name__}: {e}"})
+                    finally:
+                        for c_ in (ca, cb):
+                            if hasattr(c_, "_buffer"):
+                                c_._buffer.clear(); c_._buffered_collections.clear(); c_._CURRENT_BUFFER_SIZE = 0; c_._buffer_context._count = 0
         # 2. attribute access = item access, at depth 0..2, key pool x {get,set,del}
         for r in rows:
             cls = getattr(ns.cj, r["cls"])
@@ -485,3 +571,156 @@ if __name__ == "__main__":
     which = sys.argv[1] if len(sys.argv) > 1 else "c16"
     r = (run_c16 if which == "c16" else run_c18)("C16", "quick", 1)
     print(json.dumps({k: v for k, v in r.items() if k not in ("samples", "stats")}, indent=1, default=repr)[:5000])
+
+
+# ------------------------------------------------------------------------------------------ C03: key order
+def run_c03_order(prop, tier, seed):
+    """Key order is observable (iteration, popitem) and C03 leaves it unspecified only after bulk updates: keys inserted one
+    at a time, in a non-alphabetical order, keep that order - also for an object opened on the resource afterwards."""
+    import random
+    ns = import_library()
+    r = random.Random(seed)
+    tmp = tempfile.mkdtemp(prefix="verif_c03o_")
+    res = {"name": "C03-key-order", "model_mismatches": [], "oracle_failures": [], "samples": [], "stats": {}}
+    ev = 0
+    n = 2 if tier == "quick" else 12
+    try:
+        for cls in ns.all_classes:
+            for rep in range(n):
+                st = Store(ns, cls, tmp, f"o_{cls.__name__}_{rep}")
+                x = st.make()
+                is_list = isinstance(raw_data(x), list)
+                keys = r.sample(["zeta", "alpha", "mid", "b", "Z", "a", "y10", "y9", ""], r.choice([3, 4, 6]))
+                if sorted(keys) == keys:
+                    keys.reverse()
+                where = r.choice(["root", "nested"]) if not is_list else "in-list"
+                if where == "root":
+                    tgt, nav = x, (lambda o: o)
+                elif where == "nested":
+                    x["holder"] = {}
+                    tgt, nav = x["holder"], (lambda o: o["holder"])
+                else:
+                    x.append({})
+                    tgt, nav = x[0], (lambda o: o[0])
+                for k in keys:
+                    tgt[k] = r.choice([1, "v", [1], {"n": 1}])
+                fresh = nav(st.make())
+                for who, h in (("the writing object", tgt), ("an object opened afterwards", fresh)):
+                    ev += 1
+                    got = list(h.keys())
+                    if got != keys:
+                        res["oracle_failures"].append({"oracle": "C03-key-order", "cls": cls.__name__, "where": where, "inserted": keys,
+                                                       "detail": f"keys() through {who} is {got}: keys set one at a time do not keep their order"})
+                        break
+                    got = [k for k, _ in h.items()]
+                    if got != keys or list(iter(h)) != keys:
+                        res["oracle_failures"].append({"oracle": "C03-key-order", "cls": cls.__name__, "where": where, "inserted": keys,
+                                                       "detail": f"items()/iteration through {who} is {got}"})
+                        break
+                else:
+                    k, _ = fresh.popitem()
+                    ev += 1
+                    if k != keys[-1]:
+                        res["oracle_failures"].append({"oracle": "C03-result", "cls": cls.__name__, "where": where, "inserted": keys,
+                                                       "detail": f"popitem() through an object opened afterwards removed {k!r}; a built-in dict removes the last inserted key {keys[-1]!r}"})
+                key = f"{cls.__name__}:{where}"
+                res["stats"][key] = res["stats"].get(key, 0) + 1
+                if len(res["samples"]) < 2:
+                    res["samples"].append({"class": cls.__name__, "where": where, "keys": keys})
+    finally:
+        shutil.rmtree(tmp, ignore_errors=True)
+    res.update(evaluations=ev, distinct_nontrivial=len(res["stats"]), traces=0,
+               rule="per class and position (root, nested dict, dict in a list): keys inserted one at a time in a non-sorted order, "
+                    "then keys/items/iteration/popitem through the writer and through a freshly opened object; distinct = (class, position)")
+    return res
+
+
+# ------------------------------------------------------------------------------------------ C01: a save that fails
+def run_c01_faults(prop, tier, seed):
+    """C01 at the fault boundary: when the write to the backend fails (no space, permission, directory gone), a mutator
+    must not return normally - 'returned' means 'the backend holds the new content'."""
+    import errno
+    import random
+    ns = import_library()
+    r = random.Random(seed)
+    tmp = tempfile.mkdtemp(prefix="verif_c01f_")
+    res = {"name": "C01-save-faults", "model_mismatches": [], "oracle_failures": [], "samples": [], "stats": {}}
+    ev = 0
+    LM = {"setitem": lambda t: t.__setitem__(0, 5), "setitem_c": lambda t: t.__setitem__(0, [{"c": 1}]), "delitem": lambda t: t.__delitem__(0),
+          "insert": lambda t: t.insert(0, 5), "append": lambda t: t.append({"n": [1]}), "extend": lambda t: t.extend([5, 6]),
+          "iadd": lambda t: t.__iadd__([5]), "remove": lambda t: t.remove(1), "pop": lambda t: t.pop(), "reverse": lambda t: t.reverse(),
+          "clear": lambda t: t.clear(), "reset": lambda t: t.reset([3]), "setslice": lambda t: t.__setitem__(slice(0, 1), [8, 9]),
+          "delslice": lambda t: t.__delitem__(slice(0, 1))}
+    DM = {"setitem": lambda t: t.__setitem__("q", 5), "setitem_c": lambda t: t.__setitem__("q", {"c": [1]}), "delitem": lambda t: t.__delitem__("a"),
+          "pop": lambda t: t.pop("a"), "popitem": lambda t: t.popitem(), "update": lambda t: t.update({"u": 1}),
+          "update_kw": lambda t: t.update(w=2), "setdefault": lambda t: t.setdefault("sd", {"c": 1}), "clear": lambda t: t.clear(),
+          "reset": lambda t: t.reset({"r": 1})}
+    json_classes = [c for c in ns.all_classes if c.__module__.endswith("collection_json")]
+    real_replace = os.replace
+    try:
+        n = 0
+        for cls in json_classes:
+            is_list = cls.__name__.endswith("List")
+            for where in ("root", "nested"):
+                init = ([1, 2, [1, 2, {"a": 1}], {"a": 1, "b": 2}] if is_list else {"a": 1, "b": 2, "l": [1, 2, 3], "d": {"a": 1, "b": 2}})
+                kinds = ["list", "dict"] if where == "nested" else ["list" if is_list else "dict"]
+                for kind in kinds:
+                    for meth, fn in (LM if kind == "list" else DM).items():
+                        for fault in ("replace-ENOSPC", "dir-removed", "replace-EIO-once-then-ok"):
+                            if tier == "quick" and fault == "replace-EIO-once-then-ok" and r.random() < 0.6:
+                                continue
+                            n += 1
+                            d = os.path.join(tmp, f"f{n}")
+                            os.makedirs(d)
+                            fn_ = os.path.join(d, "doc.json")
+                            with open(fn_, "w") as fh:
+                                json.dump(init, fh)
+                            x = cls(fn_)
+                            tgt = x
+                            plain = copy.deepcopy(init)
+                            ptgt = plain
+                            if where == "nested":
+                                key = (2 if kind == "list" else 3) if is_list else ("l" if kind == "list" else "d")
+                                tgt, ptgt = x[key], plain[key]
+                            try:
+                                fn(ptgt)
+                            except Exception:  # noqa
+                                continue
+                            calls = []
+                            if fault == "dir-removed":
+                                shutil.rmtree(d)
+                            else:
+                                def boom(a, b, _calls=calls, _code=(errno.ENOSPC if "ENOSPC" in fault else errno.EIO)):
+                                    _calls.append(1)
+                                    if len(_calls) == 1:
+                                        raise OSError(_code, os.strerror(_code))
+                                    return real_replace(a, b)
+                                os.replace = boom
+                            raised = None
+                            try:
+                                fn(tgt)
+                            except BaseException as e:  # noqa
+                                raised = type(e).__name__
+                            finally:
+                                os.replace = real_replace
+                            ev += 1
+                            try:
+                                with open(fn_) as fh:
+                                    on_disk = json.load(fh)
+                            except FileNotFoundError:
+                                on_disk = MISSING
+                            if raised is None and (on_disk is MISSING or not strict_eq(on_disk, plain)):
+                                res["oracle_failures"].append({"oracle": "C01-save-fault", "cls": cls.__name__, "where": where, "method": meth, "fault": fault,
+                                                               "detail": f"{meth} on a {where} {kind} returned normally although the write failed ({fault}): "
+                                                                         f"the backend holds {jsonable(None if on_disk is MISSING else on_disk)}, the collection's content is {jsonable(plain)}"})
+                            key_ = f"{cls.__name__}:{where}:{kind}:{meth}"
+                            res["stats"][key_] = res["stats"].get(key_, 0) + 1
+                            if len(res["samples"]) < 2:
+                                res["samples"].append({"class": cls.__name__, "where": where, "method": meth, "fault": fault, "raised": raised})
+    finally:
+        os.replace = real_replace
+        shutil.rmtree(tmp, ignore_errors=True)
+    res.update(evaluations=ev, distinct_nontrivial=len(res["stats"]), traces=0,
+               rule="(JSON class, root/nested position, mutator method, fault in the write path): the mutator either raises or the file holds the new content; "
+                    "distinct = (class, position, kind, method)")
+    return res
